@@ -778,11 +778,11 @@ def run(ctx: Ctx) -> None:
     def laws() -> None:
         try:
             if quick:
-                check_laws(ctx, 2, 2, True, law_res)
+                check_laws(ctx, 2, 2, False, law_res)
             else:
-                check_laws(ctx, 2, 3, True, law_res)
-                check_laws(ctx, 3, 2, True, law_res)
-                check_laws(ctx, 3, 3, False, law_res)
+                check_laws(ctx, 2, 3, False, law_res)
+                check_laws(ctx, 2, 2, True, law_res)     # __getitem__ laws over the FULL key alphabet
+                check_laws(ctx, 3, 2, False, law_res)
         except BaseException as ex:  # noqa: BLE001
             law_err.append(ex)
 
@@ -791,7 +791,7 @@ def run(ctx: Ctx) -> None:
 
     # 2./3. exported universe -> real classes -> TLC
     accepted: list[dict] = []
-    universes = [(2, 3, 50, 200)] if quick else [(2, 3, 1500, 100000), (3, 3, 400, 100000)]
+    universes = [(2, 3, 150, 200)] if quick else [(2, 3, 1500, 100000), (3, 3, 400, 100000)]
     n_seq = 0
     for size, depth, budget, keylimit in universes:
         geoms, seqs = export_universe(ctx, size, depth, budget, keylimit)
